@@ -170,7 +170,7 @@ class Walker:
                 else:
                     e = ("deref", e)
             elif isinstance(pr, dict) and "f" in pr:
-                e = self.field(e, pr["f"], first and pl["l"] == 1)
+                e = self.field(e, pr["f"], first and pl["l"] == 1, pr.get("n"))
             elif isinstance(pr, dict) and "dc" in pr:
                 e = ("dc", e, pr["dc"], pr["v"])
             elif isinstance(pr, dict) and "idx" in pr:
@@ -186,7 +186,7 @@ class Walker:
                 e = hv
         return e
 
-    def field(self, e, i, is_self_upvar=False):
+    def field(self, e, i, is_self_upvar=False, name=None):
         if isinstance(e, tuple):
             if e[0] == "agg":
                 ops = e[5]
@@ -209,6 +209,8 @@ class Walker:
                 return ("up", i, self.upnames[i])
             if e[0] == "deref" and isinstance(e[1], tuple) and e[1][0] == "p" and e[1][1] == 1 and i in self.upnames:
                 return ("up", i, self.upnames[i])
+        if name and not name.isdigit():
+            return ("f", e, name)
         return ("f", e, i)
 
     def operand(self, st, op):
@@ -228,7 +230,32 @@ class Walker:
         if k == "cast":
             return ("cast", rv["ck"], self.operand(st, rv["op"]), rv["ty"])
         if k == "bin":
-            return ("bin", rv["op"], self.operand(st, rv["a"]), self.operand(st, rv["b"]))
+            a = self.operand(st, rv["a"])
+            b = self.operand(st, rv["b"])
+            va, vb = const_val(a), const_val(b)
+            if isinstance(va, int) and isinstance(vb, int) and not isinstance(va, bool) and not isinstance(vb, bool):
+                op = rv["op"]
+                base = op.replace("WithOverflow", "").replace("Unchecked", "")
+                r = None
+                if base == "Add":
+                    r = va + vb
+                elif base == "Sub" and va >= vb:
+                    r = va - vb
+                elif base == "Mul":
+                    r = va * vb
+                elif base == "BitAnd":
+                    r = va & vb
+                elif base == "BitOr":
+                    r = va | vb
+                elif base == "Shl" and vb < 128:
+                    r = va << vb
+                elif base == "Shr" and vb < 128:
+                    r = va >> vb
+                if r is not None and r < (1 << 64):
+                    if op.endswith("WithOverflow"):
+                        return ("agg", "tuple", "", "", 0, (("c", "int", r), ("c", "bool", 0)))
+                    return ("c", "int", r)
+            return ("bin", rv["op"], a, b)
         if k == "un":
             return ("un", rv["op"], self.operand(st, rv["a"]))
         if k == "discr":
@@ -620,7 +647,7 @@ def show(e, depth=0):
     if k == "call":
         return "%s(%s)" % (_short(e[1]), ", ".join(show(a, d) for a in e[2]))
     if k == "f":
-        return "%s.%d" % (show(e[1], d), e[2])
+        return "%s.%s" % (show(e[1], d), e[2])
     if k == "dc":
         return "(%s as %s)" % (show(e[1], d), e[2])
     if k == "agg":
